@@ -9,7 +9,7 @@ import re
 import sys
 
 HERE = os.path.dirname(os.path.abspath(__file__))
-REPO_INCLUDE = '/repo/include'
+REPO_INCLUDE = os.path.join(os.environ.get('NOP_REPO', '/repo'), 'include')
 
 
 def strip(src):
